@@ -733,7 +733,7 @@ func main() {
 		"(loops, switch, labels, goto, range, select, type switch, closures), recursion, variadics, closures, defer/recover, methods (value and pointer receivers), several init functions; "+
 		"class go (60%): valid Go source, oracle = the source compiled; class ext (20%): top-level :=, statements, expression statements, late imports, oracle = var/init() rendering by the generator; "+
 		"class macro (20%): :import/:macro definitions and macro calls generating func/var/type declarations and statements inside bodies, oracle = the generator's expansion + Comp.Parse of a second interpreter printed with go/printer. "+
-		"Each source is preprocessed by cmd.Cmd.Main(-m -w -f ARG); 1 in 8 groups of programs is passed as a directory argument (EvalDir). The written file must parse, have the expected imports/declarations (position-insensitive AST dump), "+
+		"Each source is preprocessed by cmd.Cmd.Main(-m -w -f ARG); 1 in 8 groups of programs is passed as a directory argument (EvalDir; three files, at most one of class macro: the files of a directory are one interpreter session and a macro is defined once). The written file must parse, have the expected imports/declarations (position-insensitive AST dump), "+
 		"compile and print the same output as the expected program (libraries batched into one binary; a few true `package main` programs built as executables). "+
 		"Non-trivial: >= 8 collected declarations of >= 3 kinds and non-empty program output; distinct by SHA-256 of the source. corpus/C39 (exact inputs of findings) runs first.")
 	wd := vh.NewWatchdog(rep, 10*time.Minute)
@@ -745,7 +745,9 @@ func main() {
 
 	nprog, nmain, size := 66, 1, 14
 	if a.Thorough() {
-		nprog, nmain, size = 1500, 8, 22
+		// 10x the quick tier: the compiled-Go oracle builds two packages per program (expected / written), about 0.7 s each on
+		// a loaded 16-core machine, and one executable pair per true main program
+		nprog, nmain, size = 660, 4, 22
 	}
 	if a.N > 0 {
 		nprog = a.N
@@ -849,6 +851,10 @@ func main() {
 	phase("corpus done")
 	// ---- generate
 	var jobs []*job
+	// the files of one directory argument are one session of one interpreter (a directory is one package): a valid
+	// directory defines each macro once, so at most one program of class macro (they share the macro names addto, unless,
+	// mkfun, ... and the `:import "go/ast"`) goes into a directory group; further ones become class ext
+	macroInGroup := false
 	mk := func(idx int, trueMain bool) *prog {
 		class := "go"
 		switch x := rng.Intn(10); {
@@ -857,11 +863,18 @@ func main() {
 		case x >= 6:
 			class = "ext"
 		}
+		if class == "macro" {
+			if macroInGroup {
+				class = "ext"
+			}
+			macroInGroup = true
+		}
 		return genProg(rng.Fork(), idx, class, trueMain, size)
 	}
 	group := 0
 	for i := 0; i < nprog; {
 		group++
+		macroInGroup = false
 		if dirOK && rng.Chance(1, 8) && i+3 <= nprog {
 			for k := 1; k <= 3; k++ {
 				jobs = append(jobs, &job{p: mk(i, false), dirMode: k, group: group})
@@ -874,6 +887,7 @@ func main() {
 	}
 	for k := 0; k < nmain; k++ {
 		group++
+		macroInGroup = false
 		jobs = append(jobs, &job{p: mk(nprog+k, true), group: group})
 	}
 
